@@ -529,6 +529,7 @@ func (o *c10Obs) Final(w *wWorld) *kit.Viol {
 func c10Exec(t *testing.T, r *kit.Run) func(wProg) kit.Outcome {
 	return func(p wProg) kit.Outcome {
 		r.WAL(p)
+		wSnapPerSubs = true
 		obs := &c10Obs{att: newWAttach(), told: map[int]map[string]c10Told{}, tainted: map[string]bool{}}
 		var res wRunResult
 		fail := wInBubble(t, func() { res = wExec(&p, obs, nil) })
